@@ -461,6 +461,17 @@ class C07(core.PropertyCheck):
                     want.append([m.group(1), src.count("\n", 0, m.start())])
             if want != impl["diags"]:
                 return f"undeclared constants not reported at their lines: want {want} got {impl['diags']}"
+            # every {+name+} is replaced - by the constant, or by U+200B plus a diagnostic: none survives, neither in the loaded
+            # constants (rendered in declaration order) nor in the text (fragments like "{+" / "+}" inside VALUES may of course
+            # line up by accident: such tables are not judged)
+            if case["render"]:
+                declared = dict(case["consts"])
+                for k, v in impl["consts"]:
+                    for m in re.finditer(r"\{\+([\w-]+)\+\}", v):
+                        # (a placeholder that only came into being through a replacement - "{+{+a+}+}" - is left alone by the
+                        # single pass; one that stood in the declared value itself has to be gone)
+                        if m.group(0) in str(declared.get(k, "")):
+                            return f"constant {k} was loaded as {v!r}: the placeholder {m.group(0)} of its declared value was neither expanded nor blanked and reported"
             return None
         if self.is_cyclic(case):
             # cyclic definitions: must terminate (it did); a use that reaches a cycle must be reported
